@@ -1,0 +1,93 @@
+//go:build verif
+
+package controller
+
+import (
+	"github.com/pkg/errors"
+	v1 "k8s.io/api/core/v1"
+	"k8s.io/apimachinery/pkg/api/resource"
+	v1lister "k8s.io/client-go/listers/core/v1"
+)
+
+// VerifNewController mirrors NewController but takes the backing pod and node
+// listers from the caller instead of starting informers against the API server.
+// Everything else (per-group filtered listers, cloud provider lookup, start-up
+// auto discovery, node group state) is built the same way as NewController does.
+func VerifNewController(opts Opts, allPodLister v1lister.PodLister, allNodeLister v1lister.NodeLister) (*Controller, error) {
+	listers := make(map[string]*NodeGroupLister)
+	for _, ng := range opts.NodeGroups {
+		if ng.Name == DefaultNodeGroup {
+			listers[ng.Name] = NewDefaultNodeGroupLister(allPodLister, allNodeLister, ng)
+		} else {
+			listers[ng.Name] = NewNodeGroupLister(allPodLister, allNodeLister, ng)
+		}
+	}
+	client := &Client{
+		opts.K8SClient,
+		listers,
+		allPodLister,
+		allNodeLister,
+	}
+
+	cloud, err := opts.CloudProviderBuilder.Build()
+	if err != nil {
+		return nil, errors.Wrap(err, "failed to create cloudprovider")
+	}
+
+	nodegroupMap := make(map[string]*NodeGroupState)
+	for _, nodeGroupOpts := range opts.NodeGroups {
+		cloudProviderNodeGroup, ok := cloud.GetNodeGroup(nodeGroupOpts.CloudProviderGroupName)
+		if !ok {
+			return nil, errors.Errorf("could not find node group \"%v\" on cloud provider", nodeGroupOpts.CloudProviderGroupName)
+		}
+
+		if nodeGroupOpts.autoDiscoverMinMaxNodeOptions() {
+			nodeGroupOpts.MinNodes = int(cloudProviderNodeGroup.MinSize())
+			nodeGroupOpts.MaxNodes = int(cloudProviderNodeGroup.MaxSize())
+		}
+
+		nodegroupMap[nodeGroupOpts.Name] = &NodeGroupState{
+			Opts:            nodeGroupOpts,
+			NodeGroupLister: client.Listers[nodeGroupOpts.Name],
+			scaleUpLock: scaleLock{
+				minimumLockDuration: nodeGroupOpts.ScaleUpCoolDownPeriodDuration(),
+				nodegroup:           nodeGroupOpts.Name,
+			},
+			scaleDelta: 0,
+		}
+	}
+
+	return &Controller{
+		Client:        client,
+		Opts:          opts,
+		stopChan:      nil,
+		cloudProvider: cloud,
+		nodeGroups:    nodegroupMap,
+	}, nil
+}
+
+// VerifCalcPercentUsage exposes calcPercentUsage.
+func VerifCalcPercentUsage(cpuRequest, memRequest, cpuCapacity, memCapacity resource.Quantity, numberOfUntaintedNodes int64) (float64, float64, error) {
+	return calcPercentUsage(cpuRequest, memRequest, cpuCapacity, memCapacity, numberOfUntaintedNodes)
+}
+
+// VerifCalcScaleUpDelta exposes calcScaleUpDelta. The node group state it needs is
+// reduced to the threshold and the cached node size.
+func VerifCalcScaleUpDelta(untaintedNodes []*v1.Node, cpuPercent, memPercent float64, cpuRequest, memRequest resource.Quantity,
+	scaleUpThresholdPercent int, cachedCPU, cachedMem resource.Quantity) (int, error) {
+	state := &NodeGroupState{
+		Opts:        NodeGroupOptions{Name: "verif", ScaleUpThresholdPercent: scaleUpThresholdPercent},
+		cpuCapacity: cachedCPU,
+		memCapacity: cachedMem,
+	}
+	return calcScaleUpDelta(untaintedNodes, cpuPercent, memPercent, cpuRequest, memRequest, state)
+}
+
+// VerifLockState reports the scale lock fields of a node group without touching them.
+func (c *Controller) VerifLockState(nodegroup string) (isLocked bool, requested int, ok bool) {
+	state, found := c.nodeGroups[nodegroup]
+	if !found {
+		return false, 0, false
+	}
+	return state.scaleUpLock.isLocked, state.scaleUpLock.requestedNodes, true
+}
